@@ -24,6 +24,13 @@ def draw_records_world(rng, n_windows):
         envs.append({"env": rng.choice(ENVELOPES), "comp": rng.choice(["all", "ns", "ew", "vt"]),
                      "scale": rng.choice([1.0, 1.0, 1.0, 0.25, 8.0, 1e-6, 1e5]),
                      "pos": rng.random(), "gain": rng.choice([3.0, 6.0, 15.0, 40.0])})
+    if rng.random() < 0.25:
+        # windows of one list need not share the time step or the length (sensors of different kinds, a shorter last window)
+        for e in envs:
+            if rng.random() < 0.5:
+                e["dt"] = rng.choice([0.01, 0.02, 0.005, 0.004])
+            if rng.random() < 0.3:
+                e["ns"] = rng.choice([ns - 1, ns // 2 + 50, ns + 200])
     return {"k": rng.randrange(1 << 30), "ns": ns, "dt": dt, "envs": envs, "spike_p": 0.0,
             "deg": rng.choice([0.0, 0.0, 30.0]), "int_samples": rng.random() < 0.15}
 
@@ -31,8 +38,9 @@ def draw_records_world(rng, n_windows):
 def build_records(H, r):
     g = np_rng(r["k"])
     recs = []
-    n = r["ns"]
     for j, e in enumerate(r["envs"]):
+        n = int(e.get("ns", r["ns"]))
+        dt_j = float(e.get("dt", r["dt"]))
         comps = {}
         for c in COMPONENTS:
             x = g.normal(0, 1, n)
@@ -54,15 +62,15 @@ def build_records(H, r):
             if r.get("int_samples"):
                 x = np.round(x * 1000.0)          # counts, as digitisers deliver them
             comps[c] = x
-        recs.append(H.SeismicRecording3C(H.TimeSeries(comps["ns"], r["dt"]), H.TimeSeries(comps["ew"], r["dt"]),
-                                         H.TimeSeries(comps["vt"], r["dt"]), degrees_from_north=float(r["deg"]),
+        recs.append(H.SeismicRecording3C(H.TimeSeries(comps["ns"], dt_j), H.TimeSeries(comps["ew"], dt_j),
+                                         H.TimeSeries(comps["vt"], dt_j), degrees_from_north=float(r["deg"]),
                                          meta={"window": j}))
     return recs
 
 
 def draw_td_op(rng, name, world):
     r = world["records"]
-    length = (r["ns"] - 1) * r["dt"]
+    length = min((int(e.get("ns", r["ns"])) - 1) * float(e.get("dt", r["dt"])) for e in r["envs"])
     comps = rng.choice([["ns", "ew", "vt"], ["ns", "ew", "vt"], ["vt"], ["ns"], ["ew"], ["ns", "ew"], ["vt", "ns"],
                         ["ew", "vt"], ["vt", "ew", "ns"]])
     op = {"op": name, "components": comps, "ctype": rng.choice(["tuple", "list"]),
@@ -160,9 +168,11 @@ def op_time_domain(ctx, st, op, info, get_records, members):
 
     # ---- reference verdicts where the property makes a statement
     plain = [_plain(r) for r in recs]
-    dt = float(recs[0].vt.dt_in_seconds)
     if name == "sta_lta":
-        want = [SL.sta_lta_verdict(p, dt, op["sta"], op["lta"], op["min"], op["max"], op["components"]) for p in plain]
+        want = [SL.sta_lta_verdict(p, float(r.vt.dt_in_seconds), op["sta"], op["lta"], op["min"], op["max"], op["components"])
+                for p, r in zip(plain, recs)]
+        if len({float(r.vt.dt_in_seconds) for r in recs}) > 1:
+            ctx.probe("c13_mixed_time_steps")
     else:
         want = SL.max_value_verdicts(plain, op["thr"], op["normalized"], op["components"])
     judged = [j for j, w in enumerate(want) if w is not None]
